@@ -33,7 +33,7 @@ RULE = ("case = (documented name, spelling in {as documented, all '_', all '-', 
         " Round-5 classes: a 'threads' kind - 3..6 sibling names loaded by as many threads of one process while the fake server holds every response until all requests are in flight."
         " Round-6 classes: data homes with several trailing components that do not exist yet (~/.cache/tw/cache-v1, data/sets/tw-cache)."
         " Round-7 classes: a 'no_home' kind - bundled names (and an unknown name) requested while HOME / TRAFFIC_WEAVER_DATA lie beneath a regular file.")
-REQUIRED_MONITORS = ["c18:bundled", "c18:remote", "c18:pinned_checksum_enforced", "c18:all_in_one_home",
+REQUIRED_MONITORS = ["c18:symlink_home", "c18:bundled", "c18:remote", "c18:pinned_checksum_enforced", "c18:all_in_one_home",
                      "c18:undocumented", "c18:default_home", "c18:substitution_wrapper", "c18:switch_home", "c18:tilde_home", "c18:relative_home", "c18:description_accessors", "c18:threads", "c18:no_home"]
 ASSUMPTIONS = ["the served payloads are synthetic; what is observed is the loader's behaviour per name, not the remote files"]
 NPARTS = 12
@@ -432,9 +432,12 @@ def run_tilde_home(ctx):
                               ("~/.cache/tw/cache-v1", "home", "c18:tilde_home"),
                               ("data/sets/tw-cache", "cwd", "c18:relative_home")):
         _run_named_home(ctx, value, where, mon)
+    # the named directory IS a symbolic link (a cache kept on a data disk), or lies BEHIND one (~/mnt -> /data/...)
+    _run_named_home(ctx, "~/linked-cache", "home", "c18:symlink_home", link=("linked-cache", "disk/cache"))
+    _run_named_home(ctx, "~/mnt/tw-cache", "home", "c18:symlink_home", link=("mnt", "disk2"))
 
 
-def _run_named_home(ctx, value, where, mon):
+def _run_named_home(ctx, value, where, mon, link=None):
     names = [n for _t, n in _ds.documented_names() if not _ds.is_bundled(n)]
     pick = [names[i] for i in ctx.rng("tilde", len(value)).choice(len(names), size=4, replace=False)]
     scratch = _ds.scratch_root()
@@ -443,6 +446,11 @@ def _run_named_home(ctx, value, where, mon):
         os.mkdir(user_home)
         tail = value[2:] if value.startswith(("~/", "./")) else value
         real = os.path.normpath(os.path.join(user_home if where == "home" else scratch, tail))
+        if link:
+            target = os.path.join(scratch, link[1])
+            os.makedirs(target)
+            os.symlink(target, os.path.join(user_home, link[0]))
+            real = os.path.realpath(real)
         steps = [{"op": "net", "default": "good"}] + [{"op": "by_name", "name": n, "substitute": True} for n in pick]
         steps += [{"op": "net", "default": "urlerror"}] + [{"op": "by_name", "name": n, "substitute": True} for n in pick]
         rc, out, err = _ds.run_child({"home": real, "home_mode": "tilde", "user_home": user_home,
@@ -452,6 +460,8 @@ def _run_named_home(ctx, value, where, mon):
         res = out["results"]
         for j, n in enumerate(pick):
             cid = {"kind": "tilde_home", "name": n, "value": value, "seed": ctx.seed}
+            if link:
+                cid["symbolic_link"] = "%s -> %s" % (link[0], link[1])
             ctx.judged()
             ctx.monitor(mon)
             r, r2 = res[1 + j], res[2 + len(pick) + j]
